@@ -21,6 +21,7 @@ var transparentExternal = map[string]bool{
 	"github.com/cosmos/ibc-go/v8/modules/core/04-channel/types.Acknowledgement_Error":     true,
 	"github.com/cosmos/ibc-go/v8/modules/core/04-channel/types.Acknowledgement_Result":    true,
 	"github.com/cosmos/ibc-go/v8/modules/apps/transfer/types.FungibleTokenPacketData":     true,
+	"github.com/cosmos/ibc-go/v8/modules/apps/transfer/types.DenomTrace":                  true,
 	"github.com/circlefin/noble-cctp/x/cctp/types.MsgDepositForBurn":                      true,
 	"github.com/circlefin/noble-cctp/x/cctp/types.MsgDepositForBurnWithCaller":            true,
 	"github.com/circlefin/noble-cctp/x/cctp/types.MsgReplaceDepositForBurn":               true,
@@ -32,9 +33,6 @@ var transparentExternal = map[string]bool{
 	"github.com/cosmos/cosmos-sdk/codec/types.Any":                                        true,
 	"github.com/cosmos/cosmos-sdk/types/query.PageRequest":                                true,
 	"github.com/cosmos/cosmos-sdk/types/query.PageResponse":                               true,
-	"cosmossdk.io/collections.Pair":                                                       true,
-	"cosmossdk.io/collections.Triple":                                                     true,
-	"cosmossdk.io/collections.Quad":                                                       true,
 }
 
 const (
@@ -138,6 +136,33 @@ func isMathInt(t types.Type) bool {
 	return ok && qualifiedName(n) == "cosmossdk.io/math.Int"
 }
 
+// collections containers are modelled by their identity (an Int); their contents are ghost state.
+func isCollection(t types.Type) bool {
+	n, ok := types.Unalias(t).(*types.Named)
+	if !ok {
+		return false
+	}
+	switch qualifiedName(n) {
+	case "cosmossdk.io/collections.KeySet", "cosmossdk.io/collections.Item", "cosmossdk.io/collections.Map",
+		"cosmossdk.io/collections.IndexedMap", "cosmossdk.io/collections.Sequence", "cosmossdk.io/collections/indexes.Multi":
+		return true
+	}
+	return false
+}
+
+// collections.Pair/Triple/Quad hold pointers to their components; they are modelled as tuples of values.
+func isTupleKey(t types.Type) bool {
+	n, ok := types.Unalias(t).(*types.Named)
+	if !ok {
+		return false
+	}
+	switch qualifiedName(n) {
+	case "cosmossdk.io/collections.Pair", "cosmossdk.io/collections.Triple", "cosmossdk.io/collections.Quad":
+		return true
+	}
+	return false
+}
+
 func isAccAddress(t types.Type) bool {
 	n, ok := types.Unalias(t).(*types.Named)
 	return ok && qualifiedName(n) == "github.com/cosmos/cosmos-sdk/types.AccAddress"
@@ -151,6 +176,9 @@ func (r *TypeReg) sortOf(t types.Type) string {
 	}
 	if isAccAddress(t) {
 		return sortAddr
+	}
+	if isCollection(t) {
+		return sortInt
 	}
 	switch u := t.(type) {
 	case *types.Named:
@@ -205,7 +233,7 @@ func (r *TypeReg) opaqueSort(name string) string {
 }
 
 func (r *TypeReg) isTransparent(n *types.Named) bool {
-	if inRepo(n.Obj().Pkg()) {
+	if inRepo(n.Obj().Pkg()) || isTupleKey(n) {
 		return true
 	}
 	return transparentExternal[qualifiedName(n)]
@@ -227,7 +255,13 @@ func (r *TypeReg) structSort(n *types.Named, st *types.Struct) string {
 	r.structs[name] = si // register first (recursion via pointers is Int anyway)
 	for i := 0; i < st.NumFields(); i++ {
 		f := st.Field(i)
-		si.fields = append(si.fields, fieldInfo{name: f.Name(), typ: f.Type(), sort: r.sortOf(f.Type())})
+		ft := f.Type()
+		if isTupleKey(n) {
+			if p, ok := ft.(*types.Pointer); ok {
+				ft = p.Elem() // components by value
+			}
+		}
+		si.fields = append(si.fields, fieldInfo{name: f.Name(), typ: ft, sort: r.sortOf(ft)})
 	}
 	r.order = append(r.order, name)
 	return name
@@ -254,7 +288,7 @@ func (r *TypeReg) anonStructSort(st *types.Struct) string {
 // structInfoOf returns struct info for a transparent struct type (named or anonymous), or nil.
 func (r *TypeReg) structInfoOf(t types.Type) *structInfo {
 	t = types.Unalias(t)
-	if isMathInt(t) || isAccAddress(t) {
+	if isMathInt(t) || isAccAddress(t) || isCollection(t) {
 		return nil
 	}
 	switch u := t.(type) {
@@ -521,4 +555,19 @@ func smtInt(v string) string {
 		return "(- " + v[1:] + ")"
 	}
 	return v
+}
+
+// sortsKnown: are all T_* sort names mentioned in an SMT line registered?
+func (r *TypeReg) sortsKnown(line string) bool {
+	if !strings.Contains(line, "T_") {
+		return true
+	}
+	for _, tok := range strings.FieldsFunc(line, func(c rune) bool { return c == '(' || c == ')' || c == ' ' }) {
+		if strings.HasPrefix(tok, "T_") && !strings.Contains(tok, "!") {
+			if _, ok := r.structs[tok]; !ok && !r.opaque[tok] {
+				return false
+			}
+		}
+	}
+	return true
 }
